@@ -27,7 +27,8 @@ def consumer_exc_as_yield(e):
 
 
 def _child(scen, wfd):
-    sys.path.insert(0, "/repo")
+    from vlib import tlc as _t
+    sys.path.insert(0, _t.REPO)
     import importlib
     import windpyutils.buffers
     import windpyutils.parallel.own_proc_pools as opp
